@@ -26,26 +26,30 @@ TRACE_PLANS = {
             ("solve:large", 40, 800, "", True)],
     "C02": [("solve:midconflict", 220, 4000, "perm,renum,act,hints", True),
             ("solve:conflict", 150, 3000, "act", True),
-            ("solve:base,locks,excl,direct", 100, 2000, "perm,renum,hints,async", True),
+            ("solve:base,locks,excl,direct,unionempty", 100, 2000, "perm,renum,hints,async", True),
             ("solve:hintcons", 600, 9000, "", True),
             ("solve:selfreq", 300, 4000, "", True),
             ("solve:large", 40, 800, "", True)],
     "C03": [("solve:midconflict,conflict", 260, 4000, "hints", True),
-            ("solve:cyclic,locks,excl,unknown", 150, 2500, "hints", True),
+            ("solve:cyclic,locks,excl,unknown,unionempty", 150, 2500, "hints", True),
             ("solve:bigconflict", 60, 12000, "", True),
             ("solve:selfcons,selfreq", 240, 4000, "", True)],
     "C04": [("solve:hintexcl,selfcons,softlone", 250, 6000, "", False),
             ("solve:cyclic,excl,locks,unknown,soft,softhints", 120, 4000, "hints", False),
             ("solve:midconflict,base", 120, 4000, "asynchints", False),
             ("solve:softconflict", 300, 6000, "", False),
-            ("synth:cyclic,midconflict,base,excl,locks,unknown", 120, 2500, "", False)],
+            ("synth:cyclic,midconflict,base,excl,locks,unknown", 120, 2500, "", False),
+            # a cancellation request that arrives only after solve has returned, while the
+            # conflict is rendered
+            ("cancelrender:unionoverlap,unionempty,midconflict", 40, 800, "", False)],
     "C05": [("solve:midconflict,conflict,direct", 250, 4000, "", True),
             ("solve:base,cyclic", 200, 3000, "hints", True),
             ("solve:selfreq,hintcons", 400, 5000, "", True),
             ("solve:softconflict,softeager", 200, 3000, "", True)],
     "C07": [("solve:clean", 500, 8000, "hints,async,perm", True),
             ("solve:unionoverlap", 200, 3000, "hints,async", True),
-            ("solve:manycands", 60, 1200, "hints", True)],
+            ("solve:manycands", 60, 1200, "hints", True),
+            ("solve:unionempty", 200, 3000, "hints", True)],
     "C08": [("solve:direct", 300, 6000, "act,hints", True),
             ("solve:direct2", 300, 6000, "act", True),
             ("template:direct", 300, 6000, "", True)],
@@ -66,7 +70,8 @@ TRACE_PLANS = {
             ("wide:15,16,17,31,32,33,40", 1, 1, "", False),
             ("widechain:2,3,4,5,6,7,8,9,12,16,17,24,32,33,40", 1, 1, "", True),
             ("widealt:3,4,5,6,7,8,9,10,12,16,17,20,32,33,40", 1, 1, "", True),
-            ("solve:hintcons", 800, 6000, "", True)],
+            ("solve:hintcons", 800, 6000, "", True),
+            ("solve:unionempty", 400, 5000, "", True)],
     "C14": [("solve:softconflict", 300, 5000, "", True),
             ("solve:soft", 500, 8000, "", True),
             ("solve:softhints", 250, 4000, "", True),
